@@ -179,8 +179,45 @@ CHECKS = {
                 "inflate64/pyppmd are known findings.",
         "technique": "Coq proof of buffer bounds on the streaming state machine + RSS measurement in sandboxed workers",
     },
+    "C04": {
+        "text": "The acceptance logic as a chain of CRC checks over arbitrary decoders (Damage.v): an accepted, modified archive delivers "
+                "for every checked member its original bytes or exhibits an explicit CRC-32 collision (start fields, next header, plain "
+                "header of an encoded header, member); every alteration confined to 32 consecutive bits of the start header, the raw "
+                "header or a Copy-coded member is rejected (Crc32.v burst theorems); delivered implies checked for the real control flow "
+                "of Worker.extract/_extract_single/_check (skipped predecessors, symlinks); test()/testzip() sound and silent on intact "
+                "archives. Exploration: every single-bit flip, every truncation, overwrites, bursts, swaps, insertions of 16 small "
+                "archives of all codec families (28k images quick, 340k thorough), each read in a sandbox and compared member by member.",
+        "note": "Trusted: Coq kernel; Crc32.v (proved model of zlib.crc32, cross-checked); Damage.v hand model tied by scripted-decoder "
+                "correspondence on the real Worker code. Decoders, the header parser and the link-target predicate are Section variables "
+                "with toy instances; parallel scheduling is C13's.",
+        "technique": "Coq proof with explicit CRC-collision disjuncts + exhaustive bit-flip exploration",
+    },
+    "C05": {
+        "text": "Every reader of Header.v consumes at least one byte per repetition, so a declared count larger than the remaining input "
+                "always fails (counts backed by bytes); the parser's object graph is linear in the input when declared counts are "
+                "(parse_cost_linear); the guarded decode loops (stall counter) terminate for EVERY decoder behaviour and read schedule "
+                "within 18*(size + input) + 17 rounds (decompress_loop_terminates, encoded_header_loop_terminates; the old loop's spin is "
+                "kept as a documented theorem); packpositions/bind pairs/name reads are linear. Refuted (known findings): allocation "
+                "proportional to declared numfiles / sub-stream counts. Harness: structure-aware mutation with re-sealed CRCs, "
+                "truncations/flips/splices, wrong passwords x 14 call-sequence templates in sandboxed children with CPU/RSS limits.",
+        "note": "Trusted: Coq kernel; Header.v/Decomp.v/Cost.v hand models tied by correspondence (read counts, loop round counts, "
+                "exception class). Partial: wall-clock, RSS and behaviour inside C codecs are observed by the sandbox, not proved.",
+        "technique": "Coq proof of consumption/termination bounds + sandboxed structure-aware fuzzing as search",
+    },
+    "C11": {
+        "text": "7zAES key derivation (key3 = key1 for every cycles, hash abstract), coder-property round trip, the writer's information "
+                "flow (the archive is a layout of metadata and cbc_enc(pad16(stage output)): contents enter only through the cipher; with "
+                "header encryption names enter only through the header cipher text, its length and CRC), IV freshness (disjoint RNG "
+                "slices), decision rules (no password -> PasswordRequired before any decode; wrong password -> error or an explicit CRC "
+                "collision, also for encrypted headers now that they carry the plain-header CRC). Harness: byte search for plaintext/"
+                "compressed forms/names, independent KDF + CBC decryption, pinned RNG, 438 outcome cases and thousands of wrong passwords.",
+        "note": "Trusted: Coq kernel; Enc.v hand model tied by byte-identical toy-cipher writer runs; Aes.v chunking theorems. "
+                "Cryptographic strength of AES/SHA-256 is outside any model here; what leaks by construction (sizes, plaintext CRC-32, "
+                "names unless the header is encrypted) is stated in the evidence.",
+        "technique": "Coq proof of non-interference structure and decision rules + independent-crypto correspondence",
+    },
 }
 
 _PENDING = "check not built yet in this session (planned, see DESIGN.md section 5); not a statement that proof is inapplicable"
 NOT_APPLICABLE = {p: _PENDING for p in
-                  ["C01", "C04", "C05", "C11"]}
+                  ["C01"]}
